@@ -26,6 +26,8 @@ def _staged(*stages):
                 keys = set(replay['input'].keys())
                 if name == 'values' and 'spec' not in keys:
                     continue
+                if name == 'sched' and 'case' not in keys:
+                    continue
                 if name == 'histories' and 'history' not in keys:
                     continue
             before = dict(report.coverage)
@@ -43,6 +45,7 @@ def _staged(*stages):
 
 
 REGISTRY['C09'] = _staged(('values', props_values.run), ('histories', props_cache.run_histories))
+REGISTRY['C02'] = _staged(('sched', props_sched.run), ('histories', props_cache.run_histories))
 
 import props_diagram
 REGISTRY['C20'] = props_diagram.run
